@@ -1,10 +1,14 @@
 #!/bin/bash
-# mutest.sh <seeded-dir-name> <check id>... : apply a seeded change to /repo, run the quick checks, undo it. Prints one line per check.
+# mutest.sh <seeded-dir-name> <check id>... : apply a seeded change to a scratch worktree of /repo (never to /repo itself: background
+# runs use it), run the quick checks against it with all outputs redirected to a scratch directory, undo. One line per check.
 S=/verif/seeded/$1; shift
-git -C /repo diff --quiet || { echo "/repo has local changes"; exit 2; }
-git -C /repo apply $S/patch.diff || exit 2
+WT=/tmp/mt/repo; OUT=/tmp/mt/out
+mkdir -p /tmp/mt
+[ -d $WT ] || git -C /repo worktree add -q --detach $WT HEAD
+git -C $WT checkout -q --detach $(git -C /repo rev-parse HEAD) && git -C $WT checkout -q -- .
+git -C $WT apply $S/patch.diff || exit 2
 for c in "$@"; do
-  out=$(cd /verif && timeout 3000 ./check $c --tier ${TIER:-quick} 2>/tmp/mutest_$c.err); rc=$?
+  out=$(cd /verif && THEO_REPO=$WT VERIF_SCRATCH=$OUT timeout 3000 ./check $c --tier ${TIER:-quick} 2>/tmp/mutest_$c.err); rc=$?
   echo "$(basename $S) $c rc=$rc $(echo "$out" | grep -c VIOLATION) violation lines; $(echo "$out" | grep -m1 VIOLATION)"
 done
-git -C /repo checkout -- .
+git -C $WT checkout -q -- .
